@@ -6,25 +6,48 @@ import (
 	"math/rand"
 )
 
-// decorate picks a concrete materialization (status code, variant) for a class.
-func decorate(sp RespSpec, k int) RespSpec {
+var (
+	redirChains = []string{"302", "301", "303", "307-302", "302-307", "308-303-301", "301-308", "303-303"}
+	presChains  = []string{"307", "308", "307-308", "308-307-307"}
+	loopCodes   = []string{"302", "307", "303", "308", "301"}
+)
+
+// decorate picks a concrete materialization (status code, variant, spelling of the body, redirect chain) for a
+// response of the specification.  seenAs: for a redirect the client refuses, whether the specification's behaviour
+// goes on as after a transport error ("neterr": the 3xx has a body, which cannot be read any more once net/http has
+// closed it) or with the 3xx as a status ("other": the 3xx has no body); "" = either.
+func decorate(sp RespSpec, k int, seenAs string) RespSpec {
+	sp.K = k
 	switch sp.Cls {
 	case "other":
 		sp.Code = []int{404, 400, 500, 403, 502, 504, 201, 204, 301, 501, 409, 202}[k%12]
 		if sp.Code == 301 {
 			sp.Var = "noloc" // a redirect status without Location is handed to the caller as it is
 		}
-	case "redir":
-		sp.Code = []int{302, 301, 303}[k%3]
+	case "redir", "pres", "loop":
+		sp.Var = map[string][]string{"redir": redirChains, "pres": presChains, "loop": loopCodes}[sp.Cls][k%map[string]int{"redir": 8, "pres": 4, "loop": 5}[sp.Cls]]
+		switch {
+		case seenAs == "other" || (seenAs == "" && k%3 == 0):
+			sp.Var += "/nobody"
+		case seenAs == "" && k%3 == 1:
+			sp.Var += "/body"
+		}
+		if sp.Cls == "pres" && sp.Sp == "" {
+			sp.Sp = "canon"
+		}
 	case "neterr":
 		sp.Var = []string{"", "bodyerr", "wrapdeadline", "wrapcanceled", "urldeadline", "", "wrapdeadline"}[k%7]
 		if sp.Var == "bodyerr" {
 			sp.Code = []int{200, 404, 503}[k%3]
 		}
 	case "bad200":
-		sp.Var = []string{"", "empty", "trunc"}[k%3]
+		if sp.Sp == "" {
+			sp.Sp = badSpell[k%len(badSpell)]
+		}
 	case "ok":
-		sp.Var = []string{"", "", "via307", "", "via308"}[k%5]
+		if sp.Sp == "" {
+			sp.Sp = okSpell[k%len(okSpell)]
+		}
 	case "s429", "s503":
 		if sp.Rak == "date" {
 			sp.Var = []string{"", "rfc850", "", "asctime"}[k%4]
@@ -36,12 +59,12 @@ func decorate(sp RespSpec, k int) RespSpec {
 func randResp(rng *rand.Rand, terminalOnly bool) RespSpec {
 	if terminalOnly {
 		if rng.Intn(2) == 0 {
-			return decorate(RespSpec{Cls: "ok", Rak: "none"}, rng.Intn(60))
+			return decorate(RespSpec{Cls: "ok", Rak: "none"}, rng.Intn(660), "")
 		}
-		return decorate(RespSpec{Cls: "other", Rak: "none"}, rng.Intn(60))
+		return decorate(RespSpec{Cls: "other", Rak: "none"}, rng.Intn(660), "")
 	}
 	sp := RespSpec{Rak: "none"}
-	switch x := rng.Intn(24); {
+	switch x := rng.Intn(28); {
 	case x < 1:
 		sp.Cls = "ok"
 	case x < 2:
@@ -52,6 +75,13 @@ func randResp(rng *rand.Rand, terminalOnly bool) RespSpec {
 		sp.Cls = "neterr"
 	case x < 10:
 		sp.Cls = "redir"
+	case x >= 24 && x < 26:
+		sp.Cls = "redir"
+	case x == 26:
+		sp.Cls = "loop"
+	case x == 27:
+		sp.Cls = "pres"
+		sp.Sp = [][]string{okSpell, badSpell}[rng.Intn(2)][rng.Intn(10)]
 	case x < 13:
 		sp.Cls = "s408"
 	case x < 18:
@@ -69,13 +99,19 @@ func randResp(rng *rand.Rand, terminalOnly bool) RespSpec {
 			sp.Rak, sp.Rav = "garbage", rng.Intn(5)
 		}
 	}
-	return decorate(sp, rng.Intn(60))
+	return decorate(sp, rng.Intn(660), "")
 }
 
 // randScenario draws one client with 1..3 callers; scripts are finite (ending in a response that ends
 // the submission) or infinite (a tail repeated for ever) under a context that ends.
 func randScenario(rng *rand.Rand) Scenario {
 	var sc Scenario
+	// the http.Client the caller supplies: a third of the clients are plain, the others spread over the configurations
+	sc.HC = "plain"
+	if rng.Intn(3) != 0 {
+		sc.HC = hcKinds[rng.Intn(len(hcKinds))]
+	}
+	sc.Opts = []string{"", "", "ua"}[rng.Intn(3)]
 	ncallers := 1 + rng.Intn(3)
 	for c := 0; c < ncallers; c++ {
 		var calls []CallSpec
@@ -93,7 +129,8 @@ func randScenario(rng *rand.Rand) Scenario {
 				tail := []RespSpec{{Cls: "s503", Rak: "none"}, {Cls: "s503", Rak: "none"}, {Cls: "s429", Rak: "secs", Rav: 2},
 					{Cls: "neterr", Rak: "none"}, {Cls: "bad200", Rak: "none"}, {Cls: "neterr", Rak: "none", Var: "wrapdeadline"}, {Cls: "redir", Rak: "none"},
 					{Cls: "neterr", Rak: "none", Var: "wrapcanceled"},
-					{Cls: "s503", Rak: "date", Rav: 3}}[rng.Intn(9)]
+					{Cls: "s503", Rak: "date", Rav: 3}, {Cls: "bad200", Rak: "none", Sp: "nopad"}, {Cls: "redir", Rak: "none", Var: "307-303"},
+					{Cls: "loop", Rak: "none", Var: "302/body"}}[rng.Intn(12)]
 				cs.Tail = &tail
 				span := []int{0, 300, 1000, 2999, 6500, 15000, 40000, 300000, 700000}[rng.Intn(9)]
 				// no "408 for ever": the code retries a 408 at once, and with a server that answers in zero
